@@ -341,6 +341,10 @@ impl Hooks for Ctl {
         }
     }
 
+    fn order(&self, site: &'static str, n: usize) -> usize {
+        self.0.lock().unwrap().pick(Kind::Data, site, n)
+    }
+
     fn capacity(&self, kind: &'static str, default: usize) -> usize {
         let s = self.0.lock().unwrap();
         match kind {
